@@ -740,10 +740,14 @@ where
 {
     fn drop(&mut self) {
         if let Some(connection) = self.connection.take() {
-            if connection.is_open() && !self.token.is_zero() {
+            if !self.token.is_zero() {
                 if let Some(mut pool) = self.pool.lock() {
-                    trace!("open connection returned to pool");
-                    pool.push(self.token, connection, self.pool.clone());
+                    // Checked once the pool lock is held: a connection which the peer
+                    // closed while this task waited for the lock is not handed back.
+                    if connection.is_open() {
+                        trace!("open connection returned to pool");
+                        pool.push(self.token, connection, self.pool.clone());
+                    }
                 }
             }
         }
